@@ -9,7 +9,7 @@ PROPS = {
  "C02": dict(needs=REFINE + ["FuelMono", "LinkStack", "Scope", "RunG", "SeqProofs", "CallRules", "LinkKinds"], gen=["GenStack", "GenKinds"], slices=[("slices_core", "reference_ranges"), ("slices_core", "core_programs"), ("slices_core", "small_core"), ("slices_core", "closure_factories"), ("slices_values", "c02_callables"), ("slices_core", "spec_vs_machine")]),
  "C03": dict(needs=REFINE + ["RelA", "RelB", "RelC", "RunG", "ShortCircuit", "SeqProofs", "CallRules"], gen=[], slices=[("slices_lazy", "c03_bombs"), ("slices_core", "core_programs")]),
  "C05": dict(needs=REFINE + ["LinkStack", "Progress", "RunG", "FuelMono", "Float", "Arith", "Loops", "Loops2", "SeqProofs", "CallRules"], gen=["GenStack"], slices=[("slices_faults", "c05_ladders"), ("slices_core", "core_programs")]),
- "C07": dict(needs=REFINE + ["RunG", "Pure", "Eq", "Deep", "IOSpec", "MonadLaws"], gen=[], slices=[("slices_core", "io_trees"), ("slices_core", "io_retry"), ("slices_faults", "io_device_faults"), ("slices_values", "shared_action_containers")]),
+ "C07": dict(needs=REFINE + ["RunG", "Pure", "Eq", "Deep", "IOSpec", "MonadLaws"], gen=[], slices=[("slices_world", "main_many"), ("slices_core", "io_trees"), ("slices_core", "io_retry"), ("slices_faults", "io_device_faults"), ("slices_values", "shared_action_containers")]),
  "C10": dict(needs=REFINE + ["RunG", "Exc", "Deep", "LinkErr"], gen=["GenErr"], slices=[("slices_lazy", "c10_faults"), ("slices_lazy", "c10_import_faults"), ("slices_core", "core_programs")]),
  "C11": dict(needs=CORE + ["Float", "Arith", "LinkArith", "Eq", "Complex", "LinkKinds"], gen=["GenArith", "GenKinds"], slices=[("slices_core", "int_kernels"), ("slices_values", "c11_tower"), ("slices_values", "c11_numerals")]),
  "C19": dict(needs=CORE + ["Events"], gen=[], slices=[("slices_core", "c19_dyck"), ("slices_core", "core_programs"), ("slices_core", "io_trees")]),
@@ -25,5 +25,5 @@ PROPS = {
  "C18": dict(needs=CORE + ["FloatText", "FloatTextProofs", "RealText", "PrintInt", "PrintDict", "HeapFacts", "Refine1", "Refine2", "RunG", "Pure", "IOSpec", "Cli"], gen=[], slices=[("slices_values", "c18_print"), ("slices_values", "c18_cli")]),
  "C13": dict(needs=REFINE + ["RunG", "Exc", "Once", "CountDef", "Count"], gen=[], slices=[("slices_core", "c13_once"), ("slices_core", "core_programs")]),
  "C04": dict(needs=CORE + ["Events", "Progress", "NumProofs", "Lex", "ParseProofs", "LinkErr", "LinkKinds"], gen=["GenErr", "GenParse", "GenKinds"], slices=[("slices_faults", "c04_sweep"), ("slices_faults", "io_device_faults"), ("slices_faults", "nesting_ladders"), ("slices_world", "c14_faults"), ("slices_world", "c15_semantics"), ("slices_text", "c09_parse"), ("slices_core", "core_programs")]),
- "C20": dict(needs=CORE + ["FuelMono", "Isolation"], gen=["GenNondet"], slices=[("slices_world", "c20_isolation"), ("slices_world", "c15_semantics")]),
+ "C20": dict(needs=CORE + ["FuelMono", "Isolation"], gen=["GenNondet"], slices=[("slices_world", "main_many"), ("slices_world", "c20_isolation"), ("slices_world", "c15_semantics")]),
 }
